@@ -155,6 +155,7 @@ func (db *DB) updateWriteTxnPoolLocked(numTables int) {
 func (db *DB) registerTable(table TableMeta) error {
 	db.mu.Lock()
 	defer db.mu.Unlock()
+	verifHook("register-locked")
 
 	root := slices.Clone(*db.root.Load())
 
@@ -172,6 +173,7 @@ func (db *DB) registerTable(table TableMeta) error {
 	db.updateWriteTxnPoolLocked(len(root))
 
 	db.root.Store(&root)
+	verifHook("register-stored")
 	return nil
 }
 
@@ -215,9 +217,11 @@ func (db *DB) WriteTxn(tables ...TableMeta) WriteTxn {
 
 	lockAt := time.Now()
 	txn.smus.Lock()
+	verifHook("wtxn-locked")
 	acquiredAt := time.Now()
 
 	txn.oldRoot = db.root.Load()
+	verifHook("wtxn-root-loaded")
 
 	// Clone the root. This new allocation will become the new root when
 	// we commit.
